@@ -80,6 +80,18 @@ let history_of (f : sx -> 'o) : 'o oprec list =
   List.rev_map (fun (a, o, deps) -> mk_oprec (n_of_int a) (f o) (List.map nat_of_int deps)) !hist
 let kset l = natset_of_list (List.map nat_of_int l)
 
+(* a sample of the specification evaluations is re-done inside Coq (vm_compute on the Gallina definitions):
+   the extracted deciders and the conversion of the logged history are cross-checked in the kernel *)
+let spec_cases_seen = ref 0
+let emit_spec_case (mk : unit -> string) =
+  incr spec_cases_seen;
+  if !spec_cases_seen mod 41 = 0 then (try !Driver.spec_case_hook (mk ()) with Bad _ -> ())
+let coq_hist (ty : string) (co : 'o -> string) (f : sx -> 'o) : string =
+  "([" ^ String.concat "; " (List.rev_map (fun (a, o, deps) ->
+      Printf.sprintf "mk_oprec %d %s [%s]" a (co (f o)) (String.concat "; " (List.map (fun d -> string_of_int d ^ "%nat") deps))) !hist)
+  ^ "] : list (oprec " ^ ty ^ "))"
+let coq_know know = "(natset_of_list [" ^ String.concat "; " (List.map (fun d -> string_of_int d ^ "%nat") know) ^ "])"
+
 let glop_sx x = ident_sx n_sx (field "id" x)
 let lww_sx x = { lww_val = n_sx (field "val" x); lww_marker = n_sx (field "marker" x) }
 let pnop_sx x = { pn_dot = dot_sx (field "dot" x); pn_dir = (match variant (field "dir" x) with "Pos" -> DPos | _ -> DNeg) }
@@ -490,6 +502,7 @@ let spec_check (know : int list) (s : sx) =
       let h = history_of oop_sx in
       let st = orswot_sx s in
       cmp "C04" show_orswot orswot_eqb (ospec h k) st;
+      emit_spec_case (fun () -> "orswot_eqb (ospec " ^ coq_hist "oop" coq_oop oop_sx ^ " " ^ coq_know know ^ ") " ^ coq_orswot (ospec h k));
       (* C09: an element whose known adds are all covered by applied removes stays absent *)
       let spec_entries = List.map (fun (m, _) -> int_of_n m) (nmap_to_list (ospec h k).oentries) in
       List.iter (fun (m, _) ->
@@ -504,7 +517,9 @@ let spec_check (know : int list) (s : sx) =
         expect "C04" (fun () -> Printf.sprintf "member %s: read says %b, surviving-add rule says %b" (show_n m)
                                   (List.mem m (nset_to_list (oread st).rval)) (c04_member h k m))
           (List.mem m (nset_to_list (oread st).rval) = c04_member h k m)) [0; 1; 2]
-  | "mvreg" -> cmp "C06" show_mv mv_perm_eqb (mvspec (history_of mvop_sx) k) (mv_sx s)
+  | "mvreg" ->
+      cmp "C06" show_mv mv_perm_eqb (mvspec (history_of mvop_sx) k) (mv_sx s);
+      emit_spec_case (fun () -> "mv_perm_eqb (mvspec " ^ coq_hist "mvop" coq_mvop mvop_sx ^ " " ^ coq_know know ^ ") " ^ coq_mv (mvspec (history_of mvop_sx) k))
   | "mapmv" | "mapor" | "mapmm" | "mapmo" ->
       (* key-level specification of Map (spec/MapSpec.v): map clock, key set, entry clocks *)
       let ok = (match !ty with
@@ -512,6 +527,20 @@ let spec_check (know : int list) (s : sx) =
         | "mapor" -> mkeyspec_ok (history_of (mop_sx or_inst)) k (cmap_sx or_inst s)
         | "mapmo" -> mkeyspec_ok (history_of (mop_sx (map_inst or_inst))) k (cmap_sx (map_inst or_inst) s)
         | _ -> mkeyspec_ok (history_of (mop_sx (map_inst mv_inst))) k (cmap_sx (map_inst mv_inst) s)) in
+      (match !ty with
+       | "mapor" ->
+           emit_spec_case (fun () -> "Bool.eqb (mkeyspec_ok " ^ coq_hist "(mop oop)" (coq_mop coq_oop) (mop_sx or_inst) ^ " " ^ coq_know know ^ " " ^ "(" ^ coq_cmap coq_orswot (cmap_sx or_inst s) ^ " : cmap orswot)) " ^ string_of_bool ok);
+           emit_spec_case (fun () -> "Bool.eqb (movalspec_ok " ^ coq_hist "(mop oop)" (coq_mop coq_oop) (mop_sx or_inst) ^ " " ^ coq_know know ^ " " ^ "(" ^ coq_cmap coq_orswot (cmap_sx or_inst s) ^ " : cmap orswot)) "
+                                     ^ string_of_bool (movalspec_ok (history_of (mop_sx or_inst)) k (cmap_sx or_inst s)));
+           emit_spec_case (fun () -> "Bool.eqb (mapor_nk_ok " ^ coq_hist "(mop oop)" (coq_mop coq_oop) (mop_sx or_inst) ^ " " ^ coq_know know ^ " " ^ "(" ^ coq_cmap coq_orswot (cmap_sx or_inst s) ^ " : cmap orswot)) "
+                                     ^ string_of_bool (mapor_nk_ok (history_of (mop_sx or_inst)) k (cmap_sx or_inst s)))
+       | "mapmv" ->
+           emit_spec_case (fun () -> "Bool.eqb (mkeyspec_ok " ^ coq_hist "(mop mvop)" (coq_mop coq_mvop) (mop_sx mv_inst) ^ " " ^ coq_know know ^ " " ^ "(" ^ coq_cmap coq_mv (cmap_sx mv_inst s) ^ " : cmap (list (gmap N N * N)))) " ^ string_of_bool ok)
+       | "mapmo" ->
+           let i = map_inst or_inst in
+           emit_spec_case (fun () -> "Bool.eqb (m2valspec_ok " ^ coq_hist "(mop (mop oop))" (coq_mop (coq_mop coq_oop)) (mop_sx i) ^ " " ^ coq_know know ^ " " ^ "(" ^ coq_cmap (coq_cmap coq_orswot) (cmap_sx i s) ^ " : cmap (cmap orswot))) "
+                                     ^ string_of_bool (m2valspec_ok (history_of (mop_sx i)) k (cmap_sx i s)))
+       | _ -> ());
       (* C09: a key whose every applied update is covered by an applied remove stays absent
          (theorem C09_map_removed_key_stays_absent) *)
       (let absent_ok = (match !ty with
